@@ -588,7 +588,10 @@ def issorted(table, key=None, reverse=False, strict=False):
     else:
         indices = asindices(flds, key)
     getkey = comparable_itemgetter(*indices)
-    prev = next(it)
+    try:
+        prev = next(it)
+    except StopIteration:
+        return True  # a table without data rows is sorted
     prevkey = getkey(prev)
     for curr in it:
         currkey = getkey(curr)
